@@ -153,8 +153,12 @@ func solveOne(dir string, g *Gen, ob *Oblig, quickT, slowT int) *Result {
 	if ob.Goal == "true" && !ob.ExpectSat {
 		return finish("unsat", "trivial", "", 0)
 	}
+	t1 := quickT
+	if ob.ExpectSat {
+		t1 = 2 // vacuity guard: only an `unsat` answer matters, and that comes quickly or not at all
+	}
 	sem <- struct{}{}
-	st, out, ms := runSolver(context.Background(), solvers["z3-new"], fname, quickT)
+	st, out, ms := runSolver(context.Background(), solvers["z3-new"], fname, t1)
 	<-sem
 	if st == "unsat" || st == "sat" {
 		return finish(st, "z3-new", out, ms)
